@@ -8,7 +8,8 @@ Attribute keys are small ints, attribute values tagged int tuples.
 """
 import numpy as np
 
-ATTR_KEYS = {1: "color", 2: "wt", 3: "mult", 4: "weight", 9: "label"}
+# 5-7: attribute names that are also parameter names of the adding methods (set only through the setters)
+ATTR_KEYS = {1: "color", 2: "wt", 3: "mult", 4: "weight", 5: "idx", 6: "members", 7: "node", 9: "label"}
 ATTR_KEYS_INV = {v: k for k, v in ATTR_KEYS.items()}
 
 # labels with characters that str.splitlines / str.split() treat as separators but "\n"-based line
